@@ -10,14 +10,14 @@ Contents
   `rpU_err_ulp` (absolute form: `m·2^B < 2^T` ⇒ error ≤ `2^(T−25)`, `875 ≤ T`, i.e. half an ulp of the binade below
   `2^(T−1000)`, never below the subnormal half-quantum 2^-150), `rpU_err_rel` (relative form: a result in the normal
   range has error ≤ `2^-24 · m·2^B`), `rpU_exact` (a value `m'·2^B'` with `m' < 2^24`, `B' ≥ 851` is not rounded);
-* finite patterns (`FinP`), their integer value `ival` (units of 2^-149), `toRat x = ival x / 2^149`;
-* the operators on finite operands, both signs: `fmul_ulp`, `fadd_ulp`, `fsub_ulp` (absolute form), `fmul_rel`,
-  `fadd_rel`, `fsub_rel` (`|result − exact| ≤ 2^-24·|exact|` when the exact result is in the normal range),
-  `fadd_exact`/`fsub_exact`/`ofNat_exact` (integers below 2^24 and their sums/differences are exact);
-* `roundF32_ulp`, `roundF32_rel`: the same bounds for the specification function `roundF32 : Rat → Nat`;
-* `fclamp01`: `toRat (fclamp x 0 1) = clamp01 (toRat x)`; `toNatSat_floor`.
+* `rpU_sticky`: an odd significand with ≥ 26 bits is rounded at least one unit short of half a quantum (used for the
+  sticky bit of `roundF32`).
+Continued in `F32ErrOps.lean` (finite patterns `FinP`, their integer value `ival`, `toRat x = ival x / 2^149`; the
+operators on finite operands of both signs: `fmul_ulp`, `fadd_ulp`, `fsub_ulp`, `fmul_rel`, `fadd_rel`, `fsub_rel`,
+`fadd_exact`, `fsub_exact`, `ofNat_exact`; `fclamp01`, `toNatSat_floor`) and `F32ErrRound.lean` (`roundF32_rel`,
+`roundF32_ulp` for the specification function `roundF32 : Rat → Nat`).
 
-`Near x y e` abbreviates `−e ≤ x − y ≤ e`.  Core only (no Mathlib: the lake project has no `require`).
+Core only (no Mathlib: the lake project has no `require`).
 -/
 import DdsModel.Proofs.F32ThrDev
 namespace Dds.F32Err
